@@ -539,12 +539,14 @@ def run_check(pid, tier, seed):
         rp = write_replay(pid, {'property': pid, 'kind': 'judge', 'clause': f['clause'], 'detail': info.get('detail', f['detail']),
                                 'scenario': sc, 'lines_in': info.get('lines_in'), 'impl_trace': info.get('impl_out'), 'seed': seed})
         violations.append((rp, ''))
-    # Two ties hold the model to the source: the correspondence (+ regenerated tables) and, for the pure functions, the source-agreement
-    # leaves Isotp.PyAgree.* (DESIGN 11.7).  When ONLY a source-agreement leaf no longer checks - the table leaves, every property theorem and
-    # the correspondence (run with the deepened budget, then the failing-input search) are all intact - the property is still shown to hold
-    # through the other tie: that is reported as a degraded tie, not as a violation.  VERIF_STRICT_SOURCE_TIE=1 makes it a violation.
+    # Two ties hold the model to the source: the correspondence (+ regenerated tables) and the source-agreement leaves Isotp.PyAgree.*
+    # (DESIGN 11.7).  A leaf that no longer checks is a broken proof obligation like any other: the budget is deepened, the failing-input
+    # search runs, and if nothing is found the violation is still reported, ending in no-failing-input-found (the interface's rule for
+    # "no longer shown to hold"; a behaviour-preserving rewrite of a translated function is reported that way too).
+    # VERIF_LENIENT_SOURCE_TIE=1 selects the other policy: when ONLY source-agreement leaves no longer check while every property theorem,
+    # every table leaf and the correspondence are intact, report a degraded tie (TIE-DEGRADED, exit 0) instead.
     def is_soft(w):
-        return ('.PyAgree.' in w or w == 'source-translator') and not os.environ.get('VERIF_STRICT_SOURCE_TIE')
+        return ('.PyAgree.' in w or w == 'source-translator') and bool(os.environ.get('VERIF_LENIENT_SOURCE_TIE'))
     soft_broken = [(w, y) for (w, y) in proof_broken if is_soft(w)]
     hard_broken = [(w, y) for (w, y) in proof_broken if not is_soft(w)]
     tie_degraded = []
